@@ -18,6 +18,23 @@ class Cloning:
     -------
     gfapy.Line
     """
+    try:
+      data_cpy = self._copy_of_data()
+    except RecursionError as err:
+      raise gfapy.ValueError(
+        "Line: cannot be cloned, the content of a field "+
+        "is nested too deeply") from err
+    cpy = self.__class__(data_cpy, vlevel = self.vlevel,
+                         virtual = self.virtual, version = self.version)
+    cpy._datatype = self._datatype.copy()
+    if "_positional_fieldnames" in self.__dict__:
+      # custom records: the positional field names are instance specific
+      cpy.__dict__["_positional_fieldnames"] = \
+          list(self.__dict__["_positional_fieldnames"])
+    # cpy._refs and cpy._gfa are not set, so that the cpy is disconnected
+    return cpy
+
+  def _copy_of_data(self):
     data_cpy = {}
     for k,v in self._data.items():
       if k in self.__class__.REFERENCE_FIELDS:
@@ -38,12 +55,4 @@ class Cloning:
         data_cpy[k] = gfapy.LastPos(v.value, valid = True)
       else:
         data_cpy[k] = v
-    cpy = self.__class__(data_cpy, vlevel = self.vlevel,
-                         virtual = self.virtual, version = self.version)
-    cpy._datatype = self._datatype.copy()
-    if "_positional_fieldnames" in self.__dict__:
-      # custom records: the positional field names are instance specific
-      cpy.__dict__["_positional_fieldnames"] = \
-          list(self.__dict__["_positional_fieldnames"])
-    # cpy._refs and cpy._gfa are not set, so that the cpy is disconnected
-    return cpy
+    return data_cpy
